@@ -7,9 +7,11 @@ def pytest_configure(config):
     if os.environ.get('GLUE_VERIF_TRACE') == '1':
         from harness import glue_tracer
         glue_tracer.install()
+        glue_tracer.install_collection()
 
 
 def pytest_sessionfinish(session, exitstatus):
     if os.environ.get('GLUE_VERIF_TRACE') == '1' and os.environ.get('GLUE_VERIF_TRACE_OUT'):
         from harness import glue_tracer
         glue_tracer.dump(os.environ['GLUE_VERIF_TRACE_OUT'])
+        glue_tracer.dump_collections(os.environ['GLUE_VERIF_TRACE_OUT'] + '.coll')
